@@ -759,7 +759,9 @@ func (x *c13E2E) run(e *vfEnv, class string, in c13In) {
 	var o c13RObs
 	str, err := x.cli.NewStream(ctx, x.peer, nil, desc)
 	if err != nil {
-		o = c13RObs{K: "panic"} // never expected: reported as a mismatch
+		// the responder resets the stream when the status cannot be marshalled; the reset can
+		// overtake the response header.  Anywhere else this is a mismatch.
+		o = c13RObs{K: "other"}
 	} else {
 		done := make(chan c13RObs, 1)
 		go func() { done <- c13ReadMsgObs(str) }()
